@@ -1,5 +1,475 @@
-//! Boundary-valued synthetic fonts (built with write-fonts) for the exploration oracle.
-use crate::explore::Explorer;
+//! Boundary-valued synthetic TrueType fonts for the exploration oracle.
+//!
+//! * `metric fonts`: unitsPerEm / advance widths / side bearings / glyph coordinates / cvt values at
+//!   the extremes of their fields, run through the whole `explore::exercise` operation set.
+//! * `bytecode fonts`: every TrueType opcode applied to boundary operands.  Glyph programs are
+//!   `[state prefix] [operands] [opcode]`: the prefix installs extreme graphics-state values
+//!   (cut-ins, minimum distance, single width, vectors, zones, round state, loop), the operands are
+//!   32-bit boundary values synthesised on the stack (`PUSHW hi; PUSHW 0x4000; MUL; PUSHW 0x4000; MUL;
+//!   PUSHW lo; ADD`) or small point / cvt / storage indices.  One test per glyph, each drawn hinted
+//!   (pedantic and not) at several ppem under catch_unwind.
+use crate::explore::{exercise, Explorer};
 use fv_harness::common::*;
+use read_fonts::{types::Tag, FontRef};
+use skrifa::{
+    instance::{Location, Size},
+    outline::{DrawSettings, Engine, HintingInstance, HintingOptions, OutlinePen, SmoothMode, Target},
+    raw::types::GlyphId,
+    MetadataProvider,
+};
+use write_fonts::FontBuilder;
 
-pub fn run(_cfg: &Config, _ex: &mut Explorer, _rng: &mut Rng) {}
+thread_local! {
+    static ERRS: std::cell::RefCell<Vec<String>> = std::cell::RefCell::new(vec![]);
+}
+
+struct NullPen;
+impl OutlinePen for NullPen {
+    fn move_to(&mut self, _x: f32, _y: f32) {}
+    fn line_to(&mut self, _x: f32, _y: f32) {}
+    fn quad_to(&mut self, _a: f32, _b: f32, _x: f32, _y: f32) {}
+    fn curve_to(&mut self, _a: f32, _b: f32, _c: f32, _d: f32, _x: f32, _y: f32) {}
+    fn close(&mut self) {}
+}
+
+pub struct Glyph {
+    pub points: Vec<(i16, i16, bool)>,
+    /// end point index of each contour
+    pub ends: Vec<u16>,
+    pub instructions: Vec<u8>,
+}
+
+pub struct Spec {
+    pub upem: u16,
+    pub glyphs: Vec<Glyph>,
+    pub advances: Vec<(u16, i16)>,
+    pub cvt: Vec<i16>,
+    pub fpgm: Vec<u8>,
+    pub prep: Vec<u8>,
+    pub ascender: i16,
+    pub descender: i16,
+}
+
+fn p16(b: &mut Vec<u8>, v: u16) {
+    b.extend_from_slice(&v.to_be_bytes());
+}
+fn pi16(b: &mut Vec<u8>, v: i16) {
+    b.extend_from_slice(&v.to_be_bytes());
+}
+fn p32(b: &mut Vec<u8>, v: u32) {
+    b.extend_from_slice(&v.to_be_bytes());
+}
+
+pub fn build(spec: &Spec) -> Vec<u8> {
+    let n = spec.glyphs.len();
+    // glyf + loca (long)
+    let mut glyf = vec![];
+    let mut loca = vec![];
+    let mut max_points = 0u16;
+    let mut max_contours = 0u16;
+    let mut max_ins = 0usize;
+    for g in &spec.glyphs {
+        p32(&mut loca, glyf.len() as u32);
+        if g.points.is_empty() {
+            continue;
+        }
+        max_points = max_points.max(g.points.len() as u16);
+        max_contours = max_contours.max(g.ends.len() as u16);
+        max_ins = max_ins.max(g.instructions.len());
+        pi16(&mut glyf, g.ends.len() as i16);
+        let xs: Vec<i16> = g.points.iter().map(|p| p.0).collect();
+        let ys: Vec<i16> = g.points.iter().map(|p| p.1).collect();
+        pi16(&mut glyf, *xs.iter().min().unwrap());
+        pi16(&mut glyf, *ys.iter().min().unwrap());
+        pi16(&mut glyf, *xs.iter().max().unwrap());
+        pi16(&mut glyf, *ys.iter().max().unwrap());
+        for e in &g.ends {
+            p16(&mut glyf, *e);
+        }
+        p16(&mut glyf, g.instructions.len() as u16);
+        glyf.extend_from_slice(&g.instructions);
+        for p in &g.points {
+            glyf.push(if p.2 { 1 } else { 0 });
+        }
+        // long x / y deltas
+        let mut prev = 0i16;
+        for x in &xs {
+            pi16(&mut glyf, x.wrapping_sub(prev));
+            prev = *x;
+        }
+        prev = 0;
+        for y in &ys {
+            pi16(&mut glyf, y.wrapping_sub(prev));
+            prev = *y;
+        }
+        while glyf.len() % 4 != 0 {
+            glyf.push(0);
+        }
+    }
+    p32(&mut loca, glyf.len() as u32);
+
+    let mut head = vec![];
+    p32(&mut head, 0x0001_0000);
+    p32(&mut head, 0x0001_0000);
+    p32(&mut head, 0);
+    p32(&mut head, 0x5F0F_3CF5);
+    p16(&mut head, 0);
+    p16(&mut head, spec.upem);
+    head.extend_from_slice(&[0; 16]);
+    pi16(&mut head, -32768);
+    pi16(&mut head, -32768);
+    pi16(&mut head, 32767);
+    pi16(&mut head, 32767);
+    p16(&mut head, 0);
+    p16(&mut head, 8);
+    pi16(&mut head, 2);
+    pi16(&mut head, 1); // long loca
+    pi16(&mut head, 0);
+
+    let mut hhea = vec![];
+    p32(&mut hhea, 0x0001_0000);
+    pi16(&mut hhea, spec.ascender);
+    pi16(&mut hhea, spec.descender);
+    pi16(&mut hhea, 32767); // line gap
+    p16(&mut hhea, 0xFFFF); // advance width max
+    pi16(&mut hhea, -32768);
+    pi16(&mut hhea, -32768);
+    pi16(&mut hhea, 32767);
+    pi16(&mut hhea, 1);
+    pi16(&mut hhea, 0);
+    pi16(&mut hhea, 0);
+    hhea.extend_from_slice(&[0; 8]);
+    pi16(&mut hhea, 0);
+    p16(&mut hhea, n as u16);
+
+    let mut hmtx = vec![];
+    for i in 0..n {
+        let (a, l) = spec.advances.get(i).copied().unwrap_or((0, 0));
+        p16(&mut hmtx, a);
+        pi16(&mut hmtx, l);
+    }
+
+    let mut maxp = vec![];
+    p32(&mut maxp, 0x0001_0000);
+    p16(&mut maxp, n as u16);
+    p16(&mut maxp, max_points);
+    p16(&mut maxp, max_contours);
+    p16(&mut maxp, 0);
+    p16(&mut maxp, 0);
+    p16(&mut maxp, 2); // zones
+    p16(&mut maxp, 8); // twilight points
+    p16(&mut maxp, 16); // storage
+    p16(&mut maxp, 4); // function defs
+    p16(&mut maxp, 2); // instruction defs
+    p16(&mut maxp, 256); // stack
+    p16(&mut maxp, max_ins.max(spec.prep.len()).max(spec.fpgm.len()) as u16);
+    p16(&mut maxp, 0);
+    p16(&mut maxp, 0);
+
+    let mut cvt = vec![];
+    for v in &spec.cvt {
+        pi16(&mut cvt, *v);
+    }
+
+    let mut fb = FontBuilder::new();
+    fb.add_raw(Tag::new(b"head"), head);
+    fb.add_raw(Tag::new(b"hhea"), hhea);
+    fb.add_raw(Tag::new(b"hmtx"), hmtx);
+    fb.add_raw(Tag::new(b"maxp"), maxp);
+    fb.add_raw(Tag::new(b"loca"), loca);
+    fb.add_raw(Tag::new(b"glyf"), glyf);
+    if !cvt.is_empty() {
+        fb.add_raw(Tag::new(b"cvt "), cvt);
+    }
+    if !spec.fpgm.is_empty() {
+        fb.add_raw(Tag::new(b"fpgm"), spec.fpgm.clone());
+    }
+    if !spec.prep.is_empty() {
+        fb.add_raw(Tag::new(b"prep"), spec.prep.clone());
+    }
+    fb.build()
+}
+
+// ------------------------------------------------------------------------------- bytecode
+
+const PUSHB1: u8 = 0xB0;
+const PUSHW1: u8 = 0xB8;
+const ADD: u8 = 0x60;
+const MUL: u8 = 0x63;
+
+/// code leaving the 32-bit value `v` on the stack
+pub fn push_i32(code: &mut Vec<u8>, v: i32) {
+    if (0..=255).contains(&v) {
+        code.extend_from_slice(&[PUSHB1, v as u8]);
+        return;
+    }
+    if (-32768..=32767).contains(&v) {
+        code.push(PUSHW1);
+        code.extend_from_slice(&(v as i16).to_be_bytes());
+        return;
+    }
+    let lo = v as i16;
+    let hi = ((v as i64 - lo as i64) >> 16) as i16;
+    code.push(PUSHW1);
+    code.extend_from_slice(&hi.to_be_bytes());
+    code.extend_from_slice(&[PUSHW1, 0x40, 0x00, MUL, PUSHW1, 0x40, 0x00, MUL]);
+    code.push(PUSHW1);
+    code.extend_from_slice(&lo.to_be_bytes());
+    code.push(ADD);
+}
+
+const BOUNDARY: [i32; 28] = [
+    i32::MIN,
+    i32::MIN + 1,
+    i32::MIN + 31,
+    i32::MIN + 64,
+    -0x4000_0000,
+    -0x0100_0000,
+    -65536,
+    -32769,
+    -32768,
+    -64,
+    -1,
+    0,
+    1,
+    2,
+    3,
+    32,
+    63,
+    64,
+    255,
+    0x3FFF,
+    0x4000,
+    0x7FFF,
+    0x8000,
+    0xFFFF,
+    0x0100_0000,
+    0x4000_0000,
+    i32::MAX - 63,
+    i32::MAX,
+];
+
+/// opcodes that set graphics state from popped values (opcode, number of operands)
+const STATE_OPS: [(u8, usize); 22] = [
+    (0x10, 1), // SRP0
+    (0x11, 1), // SRP1
+    (0x12, 1), // SRP2
+    (0x13, 1), // SZP0
+    (0x14, 1), // SZP1
+    (0x15, 1), // SZP2
+    (0x16, 1), // SZPS
+    (0x17, 1), // SLOOP
+    (0x1A, 1), // SMD
+    (0x1D, 1), // SCVTCI
+    (0x1E, 1), // SSWCI
+    (0x1F, 1), // SSW
+    (0x0A, 2), // SPVFS
+    (0x0B, 2), // SFVFS
+    (0x76, 1), // SROUND
+    (0x77, 1), // S45ROUND
+    (0x5E, 1), // SDB
+    (0x5F, 1), // SDS
+    (0x42, 2), // WS
+    (0x44, 2), // WCVTP
+    (0x70, 2), // WCVTF
+    (0x8E, 2), // INSTCTRL
+];
+
+fn operand(rng: &mut Rng) -> i32 {
+    match rng.below(10) {
+        0..=3 => *rng.pick(&BOUNDARY),
+        4..=7 => rng.range(0, 5) as i32, // point / cvt / storage / zone index
+        8 => rng.range(-300, 300) as i32,
+        _ => (rng.next() as i32) >> rng.below(32),
+    }
+}
+
+/// operand for a state-setting opcode: mostly values the opcode accepts
+fn state_operand(rng: &mut Rng, op: u8, k: usize) -> i32 {
+    match op {
+        0x13..=0x16 => rng.below(2) as i32,                                 // zones
+        0x10..=0x12 => rng.range(0, 8) as i32,                              // reference points
+        0x17 => *rng.pick(&[1, 2, 3, 5, 0xFFFF, i32::MAX]),                 // loop
+        0x76 | 0x77 | 0x5F | 0x5E => rng.below(256) as i32,                 // sround / delta base+shift
+        0x42 | 0x44 | 0x70 if k == 0 => rng.range(0, 7) as i32,             // storage / cvt index (pushed first)
+        _ => operand(rng),
+    }
+}
+
+/// one glyph program: optional state prefix, operands, opcode
+fn test_program(rng: &mut Rng, opcode: u8) -> Vec<u8> {
+    let mut code = vec![];
+    for _ in 0..rng.below(4) {
+        let (op, n) = *rng.pick(&STATE_OPS);
+        for k in 0..n {
+            let v = if rng.chance(5, 6) { state_operand(rng, op, k) } else { operand(rng) };
+            push_i32(&mut code, v);
+        }
+        code.push(op);
+        if rng.chance(1, 3) {
+            code.push(*rng.pick(&[0x00u8, 0x01, 0x02, 0x03, 0x04, 0x05, 0x18, 0x19, 0x3D, 0x7C, 0x7D, 0x7A]));
+            // SVTCA.., RTG, RTHG, RTDG, RUTG, RDTG, ROFF
+        }
+    }
+    let nargs = rng.below(6) as usize;
+    for _ in 0..nargs {
+        push_i32(&mut code, operand(rng));
+    }
+    code.push(opcode);
+    match opcode {
+        // pushes carry inline data
+        0x40 => {
+            let n = rng.below(4) as u8;
+            code.push(n);
+            code.extend(rng.bytes(n as usize));
+        }
+        0x41 => {
+            let n = rng.below(4) as u8;
+            code.push(n);
+            code.extend(rng.bytes(2 * n as usize));
+        }
+        0xB0..=0xB7 => code.extend(rng.bytes((opcode - 0xB0 + 1) as usize)),
+        0xB8..=0xBF => code.extend(rng.bytes(2 * (opcode - 0xB8 + 1) as usize)),
+        // IF: close it
+        0x58 => code.extend_from_slice(&[0x1B, 0x59]),
+        // FDEF / IDEF: close
+        0x2C | 0x89 => code.push(0x2D),
+        _ => {}
+    }
+    // a consumer of whatever the opcode left on the stack / in the state
+    if rng.chance(1, 2) {
+        code.push(*rng.pick(&[0x2Eu8, 0x2F, 0x3E, 0x3F, 0xC0, 0xDF, 0xE0, 0xFF, 0x68, 0x6C, 0x39, 0x3C, 0x46, 0x47, 0x49, 0x4A]));
+    }
+    code
+}
+
+fn triangle(instructions: Vec<u8>, big: bool) -> Glyph {
+    let pts = if big {
+        vec![(-32768, -32768, true), (32767, -32768, false), (32767, 32767, true), (-32768, 32767, true), (0, 0, true)]
+    } else {
+        vec![(0, 0, true), (500, 0, false), (500, 700, true), (0, 700, true), (250, 350, true)]
+    };
+    Glyph { points: pts, ends: vec![3, 4], instructions }
+}
+
+fn hint_draw(ex: &mut Explorer, label: &dyn Fn() -> String, bytes: &[u8], n_glyphs: u32, ppems: &[f32]) {
+    let Ok(font) = FontRef::new(bytes) else { return };
+    let outlines = font.outline_glyphs();
+    for &ppem in ppems {
+        for (tn, target) in [("mono", Target::Mono), ("smooth", Target::Smooth { mode: SmoothMode::Normal, symmetric_rendering: true, preserve_linear_metrics: false })] {
+            let mut inst = None;
+            ex.op(label, &format!("HintingInstance::new ppem={ppem} target={tn}"), &mut || {
+                let opts = HintingOptions { engine: Engine::Interpreter, target };
+                inst = match HintingInstance::new(&outlines, Size::new(ppem), &Location::default(), opts) {
+                    Ok(i) => Some(i),
+                    Err(e) => {
+                        ERRS.with(|c| c.borrow_mut().push(format!("inst:{e}")));
+                        None
+                    }
+                };
+            });
+            let Some(inst) = inst else { continue };
+            for g in 0..n_glyphs {
+                for pedantic in [false, true] {
+                    ex.op(label, &format!("draw-hinted gid={g} ppem={ppem} target={tn} pedantic={pedantic}"), &mut || {
+                        if let Some(glyph) = outlines.get(GlyphId::new(g)) {
+                            match glyph.draw(DrawSettings::hinted(&inst, pedantic), &mut NullPen) {
+                                Ok(_) => ERRS.with(|c| c.borrow_mut().push("draw:ok".into())),
+                                Err(e) => ERRS.with(|c| c.borrow_mut().push(format!("draw:{}", e.to_string().chars().take(60).collect::<String>()))),
+                            }
+                        } else {
+                            ERRS.with(|c| c.borrow_mut().push("draw:no-glyph".into()));
+                        }
+                    });
+                }
+            }
+        }
+    }
+}
+
+fn hexs(b: &[u8]) -> String {
+    hex(b)
+}
+
+pub fn run(cfg: &Config, ex: &mut Explorer, rng: &mut Rng) {
+    let t0 = std::time::Instant::now();
+    // ---- bytecode fonts: every opcode, `reps` random operand/state tuples each
+    let reps = if cfg.thorough() { 60 } else { 6 };
+    // function 0 = { POP }, function 1 = { } ; instruction 0x91 defined as { POP }
+    let fpgm: Vec<u8> = vec![PUSHB1, 0, 0x2C, 0x21, 0x2D, PUSHB1, 1, 0x2C, 0x2D, PUSHB1, 0x91, 0x89, 0x21, 0x2D];
+    let cvt: Vec<i16> = vec![0, 1, -1, 64, 32767, -32768, 500, -700];
+    let mut n_fonts = 0u64;
+    for rep in 0..reps {
+        for chunk in 0..8u32 {
+            // 32 opcodes per font, one glyph each
+            let mut glyphs = vec![];
+            let mut progs = vec![];
+            for i in 0..32u32 {
+                let opcode = (chunk * 32 + i) as u8;
+                let prog = test_program(rng, opcode);
+                progs.push(prog.clone());
+                glyphs.push(triangle(prog, rep % 5 == 4));
+            }
+            let upem = *rng.pick(&[16u16, 1000, 2048, 16384]);
+            // prep: occasionally an extreme state for all glyphs
+            let mut prep = vec![];
+            if rng.chance(1, 2) {
+                let (op, n) = *rng.pick(&STATE_OPS);
+                for _ in 0..n {
+                    push_i32(&mut prep, operand(rng));
+                }
+                prep.push(op);
+            } else {
+                prep.extend_from_slice(&[PUSHB1, 0, 0x21]);
+            }
+            let spec = Spec { upem, advances: (0..32).map(|_| (*rng.pick(&[0u16, 1, 500, 0x7FFF, 0x8000, 0xFFFF]), *rng.pick(&[0i16, -1, 1, 32767, -32768]))).collect(), glyphs, cvt: cvt.clone(), fpgm: fpgm.clone(), prep: prep.clone(), ascender: 800, descender: -200 };
+            let bytes = build(&spec);
+            n_fonts += 1;
+            let ppems: &[f32] = if rep % 3 == 0 { &[12.0, 2000.0] } else if rep % 3 == 1 { &[1.0, 65535.0] } else { &[16.0, 3.0e6] };
+            let label = || format!("synth=bytecode upem={upem} chunk={chunk} prep={} progs=[{}]", hexs(&prep), progs.iter().map(|p| hexs(p)).collect::<Vec<_>>().join(","));
+            hint_draw(ex, &label, &bytes, 32, ppems);
+        }
+    }
+    // the same programs in `prep` (no glyph zone: twilight only)
+    for _ in 0..reps * 40 {
+        let opcode = rng.below(256) as u8;
+        let prep = test_program(rng, opcode);
+        let spec = Spec { upem: 1000, advances: vec![(500, 0)], glyphs: vec![triangle(vec![], false)], cvt: cvt.clone(), fpgm: fpgm.clone(), prep: prep.clone(), ascender: 800, descender: -200 };
+        let bytes = build(&spec);
+        n_fonts += 1;
+        let label = || format!("synth=prep-bytecode prep={}", hexs(&prep));
+        hint_draw(ex, &label, &bytes, 1, &[16.0, 65535.0]);
+    }
+
+    // ---- metric fonts: boundary upem / advances / coordinates / cvt through the full operation set
+    for &upem in &[0u16, 1, 15, 16, 1000, 16384, 16385, 0x7FFF, 0x8000, 0xFFFF] {
+        for variant in 0..3 {
+            let coords: Vec<(i16, i16, bool)> = match variant {
+                0 => vec![(-32768, -32768, true), (32767, -32768, true), (32767, 32767, true), (-32768, 32767, true)],
+                1 => vec![(0, 0, true), (32767, 0, false), (32767, 32767, false), (0, 32767, true)],
+                _ => vec![(-20000, 0, true), (20000, 1, true), (20000, 20000, true), (-20000, 19999, true)],
+            };
+            let g = |ins: Vec<u8>| Glyph { points: coords.clone(), ends: vec![3], instructions: ins };
+            let spec = Spec {
+                upem,
+                advances: vec![(0xFFFF, -32768), (0, 32767), (0x8000, -1), (0x7FFF, 1)],
+                glyphs: vec![g(vec![]), g(vec![PUSHB1, 0, 0x2E]), g(vec![]), Glyph { points: vec![], ends: vec![], instructions: vec![] }],
+                cvt: vec![32767, -32768, 0, 1],
+                fpgm: vec![],
+                prep: vec![PUSHB1, 0, 0x21],
+                ascender: 32767,
+                descender: -32768,
+            };
+            let bytes = build(&spec);
+            n_fonts += 1;
+            let label = || format!("synth=metrics upem={upem} variant={variant}");
+            exercise(ex, &label, &bytes, false);
+        }
+    }
+    let errs = ERRS.with(|c| std::mem::take(&mut *c.borrow_mut()));
+    for e in errs {
+        let key = if e == "draw:ok" { "draw-ok" } else if e.starts_with("draw:") { "draw-hint-error" } else { "instance-error" };
+        ex.s.count(&format!("synth:{key}"));
+    }
+    ex.s.notes.push(format!("synthetic fonts: {n_fonts} ({:.1}s)", t0.elapsed().as_secs_f64()));
+}
